@@ -48,7 +48,8 @@ LABEL_FLOORS = {"quick": {"processed": 600, "opt:pullbacks": 150, "opt:scaling":
                 "thorough": {"processed": 10000}}
 CASE_TIMEOUT = {"quick": 20, "thorough": 60}
 
-OPS_REAL = {"arith", "math", "cond", "index", "tensor", "compound", "deriv", "pow", "abs", "var", "sign", "math2"}
+OPS_REAL = {"arith", "math", "cond", "index", "tensor", "compound", "deriv", "pow", "abs", "var", "sign", "math2",
+            "geotensor"}
 REAL = Profile(ops=OPS_REAL, leaves={"coef", "const", "lit", "x", "geo", "zero", "eye"}, max_rank=2, elements="all",
                manifolds=True, args=((0, "any"), (1, "any")))
 FACET = Profile(ops=OPS_REAL | {"derivn"}, leaves={"coef", "const", "lit", "x", "geo", "zero", "eye", "n"}, max_rank=2,
